@@ -20,7 +20,10 @@ RULE = ("cases = (decimal_places 0..9, line ending, axis labels (default, relabe
         "move/rapid/move_absolute/rapid_absolute with any subset of x/y/z as "
         "kwargs, list or Point; set_axis; auto_home; probe (4 modes); "
         "set_distance_mode; nested absolute_mode()/relative_mode() contexts "
-        "whose body may raise; the eight tracer shapes built valid from the "
+        "whose body may raise (an Exception or a BaseException); interleaved "
+        "non-motion calls (extrusion/feed mode, plane, units, comments) and "
+        "other builders with a different configuration created meanwhile; the "
+        "eight tracer shapes built valid from the "
         "current position); non-trivial = history with a relative move after "
         "a G92/home/probe, or a mode context, or a tracer op; distinct by SHA-1")
 ASSUMPTIONS = [
@@ -110,6 +113,8 @@ def classify(ops):
                     cl.add("relative_after_reset")
                 if rel:
                     cl.add("relative_move")
+            elif n == "other_builder":
+                cl.add("other_builder_created")
             elif n == "shape":
                 cl.add("tracer")
                 cl.add("tracer:" + op["d"]["shape"])
@@ -121,6 +126,8 @@ def classify(ops):
                     cl.add("nested_context")
                 if op.get("raise"):
                     cl.add("context_raised")
+                if op.get("raise") == "base":
+                    cl.add("context_raised_BaseException")
                 walk(op["body"], op["kind"] == "relative_mode", depth + 1)
         return rel
     walk(ops, rel, 0)
